@@ -117,6 +117,19 @@ def scn(params):
     sim = scen.Sim("c11-%d" % params["idx"], seed)
     try:
         k = sim.k
+        if params.get("long_domain"):
+            # the longest tunnel domains iodined accepts (128 characters): the least room for data in a query name
+            lrng = random.Random(params["rseed"] ^ 0xD0)
+            lab = lambda n: "".join(lrng.choice("abcdefghijklmnopqrstuvwxyz0123456789") for _ in range(n))
+            total = params["long_domain"]
+            parts, left = [], total - 4
+            while left > 0:
+                n_ = min(left, 63)
+                if left - n_ == 1:
+                    n_ -= 1
+                parts.append(lab(n_))
+                left -= n_ + 1
+            sim.domain = ".".join(parts + ["org"])
         srv = sim.server()
         if not srv.alive():
             out["inconclusive"] = "server-died-at-start"
@@ -224,6 +237,13 @@ def scn(params):
         if ctip is None:
             out["inconclusive"] = "no-ifconfig"
             return out
+        import re as _re
+        told_mtu = None
+        for ev in k.log:
+            if ev[1] == "system" and ev[2] == "cli0":
+                mm = _re.search(rb" mtu (\d+)", ev[3]["cmd"])
+                if mm:
+                    told_mtu = int(mm.group(1))
         t0 = k.now + US
         tt = t0
         frag = neg.get("frag", 100)
@@ -233,6 +253,9 @@ def scn(params):
                 ident += 1
                 size = rng.choice([40, 100, 300, 600, 1000, 1134])
                 style = rng.choice(["random", "random", "text", "zeros"])
+                if i in (3, 8) and told_mtu:
+                    # a packet as large as the interface the client was told to configure lets through, and incompressible
+                    size, style = told_mtu + 4, "random"
                 fid = (params["idx"] << 20) | ident
                 f = proto.make_frame(stip, ctip, fid, size, style, rng) if side == "srv" else proto.make_frame(ctip, stip, fid, size, style, rng)
                 k.at(tt + (0 if side == "srv" else 3000), k.offer_tun, "srv" if side == "srv" else "cli0", f, ident)
@@ -250,7 +273,8 @@ def scn(params):
                 return out
         cap = tunnelscn.up_capacity(k, "cli0", sim.domain, neg.get("enc", 5))
         down_ok = lambda f: tunnelscn.est_down_frags(f, frag) <= MAXFR
-        up_ok = lambda f: tunnelscn.est_up_frags(f, cap) <= MAXFR
+        # (what fits the interface MTU the server announced is a packet the tunnel is there to carry, however many fragments)
+        up_ok = lambda f: tunnelscn.est_up_frags(f, cap) <= MAXFR or (told_mtu is not None and len(f) <= told_mtu + 4 and cap >= 70)
         for (reader, writer, elig, d) in (("srv", "cli0", down_ok, "down"), ("cli0", "srv", up_ok, "up")):
             prob, nr, nw = _seq_check(k, reader, writer, elig)
             out["stats"]["frames_judged"] += nr
@@ -405,6 +429,9 @@ def run(ctx):
                       "lazy0": rng.random() < 0.15, "pred": rng.random() < 0.3})
         if i % 6 == 4 and not (forced and "-T" not in forced and False):
             plist[-1]["try_raw"] = True
+        if i % 10 in (2, 5):
+            plist[-1]["long_domain"] = rng.choice([128, 128, 127, 124, 120])
+            plist[-1]["pred"] = False
         if i in (0, 4, 8, 20) or rng.random() < 0.12:
             plist[-1]["crowd"] = rng.randint(10, 14)
             plist[-1]["pred"] = False
